@@ -15,6 +15,7 @@ from .common import Harness, zbool
 from . import hrun
 
 PROPERTY = 'C09'
+LEVEL = 'fault_enumeration'      # the solver enumerates a schedule / skeleton; the data of a path are concrete (DESIGN.md section 4)
 KINDS = ['gotwant', 'exc_top', 'exc_helper', 'exc_external', 'compile_error', 'repr_raises', 'repr_raises_stdout',
          'import_error', 'bad_directive']
 BOUNDS = {
